@@ -180,6 +180,9 @@ PROPS['C02'] = dict(
           'queued REQUESTED, other workers untouched, Pythia asked iff needed; repeated call is sticky', _C02_BOUND)
         for k in range(3)
     ] + [
+        O('C02.suggest_gaps', 'harness.c02_suggest', 'suggest_step_gaps', 200, 600,
+          'same with holes in the id sequence (trials deleted earlier): new ids still exceed every existing id',
+          'ids 1,4,5.. or 3,4,5..; N 1..3, own 0..2, REQUESTED 0..1, completed 0..1, delivery +0..+1'),
         O('C02.suggest_big', 'harness.c02_suggest', 'suggest_step_big', None, 1500, 'same, larger counts',
           'N in 1..6, own 0..3, REQUESTED 0..3, delivery offset -1..+3'),
     ])
